@@ -160,6 +160,62 @@ def correspond(ctx):
             rep.violation("roundtrip-failed:pbes2-p2c-" + place, "jose cannot decrypt its own %s token when p2c is given in %s: %s" % (wrap, place, o[:60]), {"case": r_, "decrypt": c_[:3000]})
     dist["PBES2 tokens with p2c in protected / shared / per-recipient header / absent"] = len(pb_req)
 
+    # ---- 1c. ECDH-ES direct agreement with PartyUInfo / PartyVInfo of every length class: the content key jose derives
+    #           (returned by jose_jwe_dec_jwk) equals Concat KDF (NIST SP 800-56A 5.8.1, RFC 7518 4.6.2) computed by python over
+    #           Z = x(d * epk) -- apu / apv enter the hash with their 32-bit length, whatever their length
+    import hashlib as _hl
+    import pyec as _ec
+    kdf_req, kdf_meta = [], []
+    encbits = {"A128GCM": 128, "A256GCM": 256, "A128CBC-HS256": 256, "A256CBC-HS512": 512}
+    lens_ = [None, 0, 1, 5, 8, 9, 17, 64, 300]
+    for crv in ("P-256", "P-384", "P-521"):
+        if not keys.get(crv):
+            continue
+        for enc in (encbits if not quick else rnd.sample(list(encbits), 2)):
+            for ul in (lens_ if not quick else rnd.sample(lens_, 4) + [9, 17]):
+                vl = rnd.choice(lens_)
+                hdr = {"alg": "ECDH-ES", "enc": enc}
+                apu = None if ul is None else bytes(rnd.getrandbits(8) for _ in range(ul))
+                apv = None if vl is None else bytes(rnd.getrandbits(8) for _ in range(vl))
+                if apu is not None:
+                    hdr["apu"] = G.b64(apu)
+                if apv is not None:
+                    hdr["apv"] = G.b64(apv)
+                kdf_req.append("jweenc\t%s\t-\t%s\t%s" % (J({"protected": hdr}), J(G.pub_of(keys[crv])), b"kdf".hex()))
+                kdf_meta.append((crv, enc, apu or b"", apv or b""))
+    kdf_out = G.harness(bdir, kdf_req)
+    unw, unw_meta = [], []
+    for r_, o, m in zip(kdf_req, kdf_out, kdf_meta):
+        if o == "ERR" or o.startswith("CRASH"):
+            rep.violation("enc-failed:ECDH-ES:apu", "jose_jwe_enc failed for ECDH-ES with apu of %d / apv of %d octets: %s" % (len(m[2]), len(m[3]), o[:60]), {"case": r_[:2000]})
+            continue
+        unw.append("jweunw\t%s\t-\t%s" % (o, J(keys[m[0]])))
+        unw_meta.append((json.loads(o), m, r_))
+    for c_, o, (tok, (crv, enc, apu, apv), r_) in zip(unw, G.harness(bdir, unw), unw_meta):
+        hd = json.loads(G.unb64(tok["protected"]))
+        hd.update(tok.get("header") or {})
+        hd.update(tok.get("unprotected") or {})
+        epk = hd.get("epk") or {}
+        cv = _ec.CURVES[crv]
+        try:
+            d = int.from_bytes(G.unb64(keys[crv]["d"]), "big")
+            Z = _ec.mul(cv, d, (int.from_bytes(G.unb64(epk["x"]), "big"), int.from_bytes(G.unb64(epk["y"]), "big")))[0].to_bytes(cv["size"], "big")
+            other = b"".join(len(x).to_bytes(4, "big") + x for x in (enc.encode(), apu, apv)) + encbits[enc].to_bytes(4, "big")
+            dk, ctr = b"", 1
+            while len(dk) * 8 < encbits[enc]:
+                dk += _hl.sha256(ctr.to_bytes(4, "big") + Z + other).digest()
+                ctr += 1
+            wantk = G.b64(dk[:encbits[enc] // 8])
+            got = json.loads(o).get("k") if o.startswith("{") else o
+        except Exception as ex:
+            rep.violation("concat-kdf:check-failed", "could not evaluate the ECDH-ES token: %s" % ex, {"case": c_[:2000]})
+            continue
+        if got != wantk:
+            rep.violation("concat-kdf:differs:%s" % ("apu>8" if len(apu) > 8 else "apv>8" if len(apv) > 8 else "short-info"),
+                          "ECDH-ES on %s / %s with apu of %d and apv of %d octets: the content key jose derives is not Concat KDF(Z, %s, apu, apv, %d) of RFC 7518 4.6.2"
+                          % (crv, enc, len(apu), len(apv), enc, encbits[enc]), {"case": c_[:3000], "produced_by": r_[:1500], "implementation": str(got)[:100], "expected": wantk})
+    dist["ECDH-ES direct: derived content key compared with python Concat KDF (apu / apv of 0..300 octets)"] = len(unw)
+
     # ---- 2. bit-identity: re-encrypt on the model with jose's CEK and IV (no zip), compare ciphertext and tag
     menc_cases = []
     for tok, (wrap, enc, zip_, aad, key, pt) in toks:
